@@ -41,6 +41,13 @@ def concretise(body):
         doc["errors"] = json.loads(json.dumps(src[:1]))
     elif body["errors"] == "two":
         doc["errors"] = json.loads(json.dumps(src[:2]))
+    elif body["errors"] in ("two_same", "three_mixed"):
+        a, b = json.loads(json.dumps(src[0])), json.loads(json.dumps(src[0]))
+        if "path" in b:     # same message reported for another position
+            b["path"] = ["item", 1, "name"]
+            b["locations"] = [{"line": 9, "column": 1}]
+            b["extensions"] = {"code": "OTHER", "n": 2}
+        doc["errors"] = [a, b] if body["errors"] == "two_same" else [a, json.loads(json.dumps(src[1])), b]
     if body["extra"]:
         doc["extensions"] = {"tracing": {"v": 1}}
         doc["foo"] = [1, 2]
